@@ -11,6 +11,8 @@ pub open spec fn xcall_failed(w: World, w2: World, callee: Address, func: int, a
 
 /// soroban_sdk::Error / soroban_sdk::InvokeError as seen through a generated client's `try_` methods (only their shapes matter)
 pub struct SdkError { pub code: u32 }
+/// `soroban_sdk::Error` under its own name (the `E` of `try_invoke_contract::<T, Error>`)
+pub type Error = SdkError;
 pub enum InvokeError { Abort, Contract(u32) }
 // For every client method `m` of a model fragment whose contract is the generic `xcall_post`, vx.py derives the SDK's `try_m`
 // mechanically (same callee, function and arguments): Ok(Ok(v)) = the call returned v; Ok(Err(_)) = it returned a value that
